@@ -1377,4 +1377,41 @@ pub fn generate_c13(tier: &str, seed: u64, out: &mut Out) {
         let f = random_field(&mut rng, &pol, sv);
         out.req("rel.wrap", &[es(&f.text()), ebool(sv).to_string()]);
     }
+    // (appended) numbers above i32::MAX: BIGNUM exactly when two distinct elements that get sorted cannot
+    // be compared (`sort_may_panic`); a single big number, distinct names, a comparison decided before
+    // the number (epoch, earlier component, operator): the real result is compared with the model's
+    for t in [
+        "a (>= 3000000000)",
+        "a (>= 3000000000), b",
+        "b (>= 3000000000), a (>= 3000000001)",
+        "a (>= 3000000000), a (>= 3000000001)",
+        "a (>= 3000000000), a (>= 3000000000)",
+        "a (>= 3000000000), a (>= 1)",
+        "a (>= 2147483647), a (>= 1)",
+        "a (>= 2147483648), a (>= 1)",
+        "a (>= 3000000000:1), a (>= 1)",
+        "a (>= 1:3000000000), a (>= 1:1)",
+        "a (>= 1:3000000000), a (>= 2:1)",
+        "a (>= 1.3000000000), a (>= 2.1)",
+        "a (>= 1.3000000000), a (>= 1.1)",
+        "a (>= 0~20240101120000)",
+        "a (>= 0~20240101120000), b (>= 0~20240101120001)",
+        "a (>= 0~20240101120000) | a (>= 0~20240101120001)",
+        "a (>= 0~20240101120000) | b (>= 0~20240101120001), c",
+        "z | a (>= 3000000000), y | a (>= 3000000000)",
+        "a (>= 3000000000) | z, a (>= 3000000000) | y",
+        "a (>= 3000000000) | z, a (>= 3000000001) | y",
+        "a (<< 3000000000), a (>= 3000000000)",
+        "a (>= 1-3000000000), a (>= 1-3000000001)",
+        "a (>= 1-3000000000), a (>= 2-3000000001)",
+        "a (>= 00000000002), a (>= 1)",
+        "a (>= 3000000000) [amd64], a (>= 3000000000) [i386]",
+        "a:any (>= 3000000000), a (>= 3000000000)",
+        "c, a (>= 3000000000), b, a",
+        "a (>= 3000000000), a (> 1)",
+        "a (> 1), b (>= 3000000000), b (>= 3000000001)",
+    ] {
+        out.req("rel.wrap", &[es(t), "0".into()]);
+        out.req("rel.wrap", &[es(&format!("${{x:y}}, {}", t)), "1".into()]);
+    }
 }
